@@ -12,8 +12,14 @@ def payload(parent, k):
     return [], K[(k % 2) * 4], 120 + k
 
 
-def make_universe():
-    return world.Universe(world.easy_root(), payload)
+def payload_t(parent, k):
+    # block times far apart or close together, so that with a short retarget period competing branches carry
+    # different targets (the rule under test must still compare heights only)
+    return [], K[(k % 2) * 4], (30, 700, 120, 45)[k % 4], {'cb_data': b'child %d' % k}
+
+
+def make_universe(varied=False):
+    return world.Universe(world.easy_root(), payload_t if varied else payload)
 
 
 def compare(cs, fc, nodes_by_id):
@@ -83,9 +89,13 @@ def dfs(uni, cs, fc, hist, nchildren, n, now, stats, out, validated):
 
 
 def _worker(arg):
-    prefix, n, validated = arg
+    prefix, n, validated = arg[:3]
+    varied = len(arg) > 3 and arg[3]
     ledger.setup()
-    uni = make_universe()
+    from .. import seams
+    # retarget period 2 (varied-target universe) or the real one
+    seams.retarget_period(2, 240) if varied else seams.retarget_period(10080, 1209600)
+    uni = make_universe(varied)
     now = world.T0 + 10**6
     stats = {'states': 0, 'transitions': 0, 'complete': 0, 'tie_later_smaller': 0, 'tie_later_larger': 0, 'reorgs': 0}
     out = []
@@ -118,6 +128,9 @@ def run(ctx):
     n = 8 if ctx.quick else 10
     nv = 7 if ctx.quick else 9          # also through the unvalidated entry point (reload path)
     jobs = [(p, n, True) for p in prefixes(uni, 4)] + [(p, nv, False) for p in prefixes(uni, 3)]
+    # the same enumeration on a universe whose competing branches carry DIFFERENT targets (retarget period rebound to 2)
+    nt = 6 if ctx.quick else 8
+    jobs += [(p, nt, True, True) for p in prefixes(uni, 3)]
     if ctx.seed:
         import random
         random.Random(ctx.seed).shuffle(jobs)
@@ -145,24 +158,30 @@ def run(ctx):
         'rule': "all n! parent-choice sequences (no de-duplication; prefixes shared); every arrival is one lock-step "
                 "comparison implementation vs reference fork choice",
     })
+    seams_note = "third job family: retarget period rebound to 2 so that targets differ between competing branches"
+    ctx.assumptions.append(seams_note)
     ctx.assumptions.append("total work is height in this version (Block.get_total_work); the reference says so too")
     ctx.assumptions.append("every arrival is a new block (re-adding a stored block through the CoinState API is not an "
                            "event; the node filters duplicates before the call - C09)")
 
 
 def replay(data, ctx):
+    from .. import seams
     ledger.setup()
-    uni = make_universe()
     now = world.T0 + 10**6
     hist = [tuple(p) for p in data['hist']]
     out = []
-    for validated in (True, False):
+    for validated, varied in ((True, False), (False, False), (True, True)):
+        seams.retarget_period(2, 240) if varied else seams.retarget_period(10080, 1209600)
+        uni = make_universe(varied)
         from skepticoin.coinstate import CoinState
         cs = CoinState.empty().add_block_no_validation(uni.root.block)
         fc = refmodel.ForkChoice()
         fc.add(uni.root)
         for p in hist:
             node = uni.get(p)
+            if node is None:
+                break
             try:
                 cs = cs.add_block(node.block, now) if validated else cs.add_block_no_validation(node.block)
             except Exception:
